@@ -308,6 +308,13 @@ let () =
         let w = bytes_of inp in
         let toks = List.map (function L [r; k] -> (n_of_int (ai r), nat_of_int (ai k)) | _ -> failwith "tok") toks in
         Printf.printf "validate %s\n" (if validate prog (n_of_int (ai sc)) (ab bol) w toks then "OK" else "FAIL")
+      | L [A "kinds"] ->
+        Printf.printf "kinds %s\n" (String.concat " " (List.map (fun r ->
+            match rule_kind r with
+            | TcNone -> "none"
+            | TcHead k -> Printf.sprintf "head:%d" (int_of_nat k)
+            | TcTail k -> Printf.sprintf "tail:%d" (int_of_nat k)
+            | TcVariable -> "variable") prog.p_rules))
       | L [A "optmodel"] ->
         List.iter (fun o ->
             let b x = if x then 1 else 0 in
